@@ -529,16 +529,19 @@ struct Proto {
     big: Option<Msg>,
     /// every other passing mc-proto message of the protocol (<= 4096 bytes)
     extended: Vec<Msg>,
+    /// streams whose (last) large message ends exactly at 65535 / 131070 bytes
+    /// from the stream start: [B], [s, B]
+    edges: Vec<Vec<Msg>>,
 }
 
 fn net1_proto<M: Fragment + 'static>(protocol: &'static str, number: u16) -> Proto {
-    Proto { stack: NET1, path: "plexer", protocol, number, eval: net1_eval::<M>, reenc: Box::new(reenc1::<M>), counts_distinct: true, small: vec![], big: None, extended: vec![] }
+    Proto { stack: NET1, path: "plexer", protocol, number, eval: net1_eval::<M>, reenc: Box::new(reenc1::<M>), counts_distinct: true, small: vec![], big: None, extended: vec![], edges: vec![] }
 }
 
 fn net2_protos(protocol: &'static str, number: u16) -> [Proto; 2] {
     [
-        Proto { stack: NET2, path: "read_full_msgs", protocol, number, eval: net2_eval, reenc: Box::new(move |b| reenc2(number, b)), counts_distinct: true, small: vec![], big: None, extended: vec![] },
-        Proto { stack: NET2, path: "from_payload", protocol, number, eval: net2_direct, reenc: Box::new(move |b| reenc2(number, b)), counts_distinct: false, small: vec![], big: None, extended: vec![] },
+        Proto { stack: NET2, path: "read_full_msgs", protocol, number, eval: net2_eval, reenc: Box::new(move |b| reenc2(number, b)), counts_distinct: true, small: vec![], big: None, extended: vec![], edges: vec![] },
+        Proto { stack: NET2, path: "from_payload", protocol, number, eval: net2_direct, reenc: Box::new(move |b| reenc2(number, b)), counts_distinct: false, small: vec![], big: None, extended: vec![], edges: vec![] },
     ]
 }
 
@@ -627,7 +630,9 @@ fn load(thorough: bool) -> (Vec<Proto>, Vec<String>) {
         };
         let n_small = if thorough { alpha.small.len() } else { QUICK_ALPHA.min(alpha.small.len()) };
         let small: Vec<Msg> = alpha.small[..n_small].iter().map(|n| get(n)).collect();
-        let big = alpha.big.map(|(base, item_hex)| {
+        // a large message made from an mc-proto message by replacing its body
+        // byte string with `body_len` patterned bytes (shortest head)
+        let craft = |base: &str, item_hex: &str, body_len: usize, label: &str| -> Msg {
             let base_m = get(base);
             let item = hex::decode(item_hex).unwrap();
             let at = find_sub(&base_m.bytes, &item);
@@ -635,16 +640,43 @@ fn load(thorough: bool) -> (Vec<Proto>, Vec<String>) {
                 mc_core::report::machinery_failure(&format!("C21: body item {item_hex} occurs {} times in {base}", at.len()));
             }
             let mut b = base_m.bytes[..at[0]].to_vec();
-            b.push(0x5a);
-            b.extend_from_slice(&(BIG_BODY as u32).to_be_bytes());
-            b.extend(pattern(BIG_BODY));
+            if body_len < 65536 {
+                assert!(body_len >= 256);
+                b.push(0x59);
+                b.extend_from_slice(&(body_len as u16).to_be_bytes());
+            } else {
+                b.push(0x5a);
+                b.extend_from_slice(&(body_len as u32).to_be_bytes());
+            }
+            b.extend(pattern(body_len));
             b.extend_from_slice(&base_m.bytes[at[0] + item.len()..]);
-            let name = format!("{}/body70000(from {})", base_m.variant(), base);
+            let name = format!("{}/{label}(from {})", base_m.variant(), base);
             if let Err(e) = valid(&name, &b) {
                 mc_core::report::machinery_failure(&format!("C21: crafted big message {}/{}/{name} fails the precondition: {e}", p.stack, p.protocol));
             }
             Msg { name, bytes: Arc::new(b) }
-        });
+        };
+        // ... with a chosen TOTAL encoded length
+        let craft_total = |base: &str, item_hex: &str, total: usize| -> Msg {
+            let framing = get(base).bytes.len() - item_hex.len() / 2;
+            let body = if total - framing - 3 <= 65535 { total - framing - 3 } else { total - framing - 5 };
+            let m = craft(base, item_hex, body, &format!("total{total}"));
+            if m.bytes.len() != total {
+                mc_core::report::machinery_failure(&format!("C21: crafted message {} is {} bytes, wanted {total}", m.name, m.bytes.len()));
+            }
+            m
+        };
+        let big = alpha.big.map(|(base, item_hex)| craft(base, item_hex, BIG_BODY, "body70000"));
+        let mut edges: Vec<Vec<Msg>> = vec![];
+        if let Some((base, item_hex)) = alpha.big {
+            let s1 = small[1 % small.len()].clone();
+            for total in [MAXSEG, 2 * MAXSEG] {
+                edges.push(vec![craft_total(base, item_hex, total)]);
+                edges.push(vec![s1.clone(), craft_total(base, item_hex, total - s1.bytes.len())]);
+                // the cut at the message boundary leaves B alone in full-size segments
+                edges.push(vec![s1.clone(), craft_total(base, item_hex, total)]);
+            }
+        }
         let mut extended = vec![];
         let mut seen: BTreeSet<Vec<u8>> = BTreeSet::new();
         for m in small.iter().chain(big.iter()) {
@@ -676,11 +708,42 @@ fn load(thorough: bool) -> (Vec<Proto>, Vec<String>) {
         p.small = small;
         p.big = big;
         p.extended = extended;
+        p.edges = edges;
     }
     (protos, excluded)
 }
 
 // ---------------------------------------------------------- segmentations
+
+/// Which family of segmentations a stream gets.
+#[derive(Clone, Copy, PartialEq, Debug)]
+enum Mode {
+    /// sequences over the reduced alphabet and the 70 kB streams: everything
+    Full,
+    /// single-message sweep in quick: no pairs of cuts beyond `full_n`
+    Light,
+    /// streams whose large message ends exactly on a multiple of 65535 bytes:
+    /// no cut (= the sender's 65535-byte chunking, = uniform 65535) and the
+    /// single cuts in the boundary windows
+    Edge,
+}
+
+impl Mode {
+    fn as_str(&self) -> &'static str {
+        match self {
+            Mode::Full => "full",
+            Mode::Light => "light",
+            Mode::Edge => "segment-edge",
+        }
+    }
+    fn parse(s: &str) -> Mode {
+        match s {
+            "light" => Mode::Light,
+            "segment-edge" => Mode::Edge,
+            _ => Mode::Full,
+        }
+    }
+}
 
 struct Limits {
     /// all 2^(n-1) segmentations up to this stream length
@@ -742,7 +805,20 @@ fn window_positions(n: usize, bounds: &[usize], w: usize) -> BTreeSet<u32> {
 /// Calls `f(cuts, empty_at)` for every segmentation of the family, each once.
 /// `bounds` = end offsets of the messages. `light` = single-message sweep of
 /// the extended alphabet (pairs only within `full_n`).
-fn for_each_seg(n: usize, bounds: &[usize], lim: &Limits, light: bool, f: &mut dyn FnMut(&[u32], Option<u32>)) {
+fn for_each_seg(n: usize, bounds: &[usize], lim: &Limits, mode: Mode, f: &mut dyn FnMut(&[u32], Option<u32>)) {
+    if mode == Mode::Edge {
+        let mut set: BTreeSet<Vec<u32>> = BTreeSet::new();
+        set.insert(normalize(&[], n));
+        set.insert(normalize(&(1..).map(|i| (i * MAXSEG) as u32).take_while(|&c| (c as usize) < n).collect::<Vec<_>>(), n));
+        for c in window_positions(n, bounds, SINGLE_WINDOW) {
+            set.insert(normalize(&[c], n));
+        }
+        for cuts in &set {
+            f(cuts, None);
+        }
+        return;
+    }
+    let light = mode == Mode::Light;
     // the explicit empty segments: one in the middle of the stream (normally
     // inside a message) and, with two or more messages, one exactly between
     // the first two messages (the receiver's buffer is empty at that moment)
@@ -885,7 +961,7 @@ fn judge(p: &Proto, msgs: &[&Msg], sentinel: &Msg, out: &EvalOut) -> Option<Verd
 struct Job {
     proto: usize,
     msgs: Vec<Msg>,
-    light: bool,
+    mode: Mode,
     kind: &'static str,
     cost: u64,
 }
@@ -906,11 +982,12 @@ struct JobRes {
     nontrivial: u64,
     msgs_ok: u64,
     full_enum: bool,
+    ends_on_full_segment: u64,
     found: Vec<Found>,
     sample: Option<Value>,
 }
 
-fn case_json(p: &Proto, msgs: &[Msg], n: usize, cuts: &[u32], empty_at: Option<u32>, ordinal: u64, light: bool) -> Value {
+fn case_json(p: &Proto, msgs: &[Msg], n: usize, cuts: &[u32], empty_at: Option<u32>, ordinal: u64, mode: Mode) -> Value {
     let cuts_v: Value = if cuts.len() <= 64 { json!(cuts) } else { json!({"count": cuts.len(), "first": &cuts[..8], "uniform_step": if cuts.windows(2).all(|w| w[1] - w[0] == cuts[0]) { Some(cuts[0]) } else { None }}) };
     json!({
         "stack": p.stack, "path": p.path, "protocol": p.protocol,
@@ -919,7 +996,7 @@ fn case_json(p: &Proto, msgs: &[Msg], n: usize, cuts: &[u32], empty_at: Option<u
         "stream_len": n, "cuts": cuts_v, "empty_segment_at": empty_at,
         // position in the enumeration of this stream's segmentations (used by
         // --replay when the cut list is abbreviated; same tier required)
-        "segmentation_ordinal": ordinal, "single_message_sweep": light,
+        "segmentation_ordinal": ordinal, "mode": mode.as_str(),
     })
 }
 
@@ -944,15 +1021,26 @@ fn run_job(protos: &[Proto], job: &Job, idx: usize, lim: &Limits) -> JobRes {
     let mut res = JobRes { full_enum: n <= lim.full_n, ..Default::default() };
     let flip = idx % 2 == 1;
     let mut ordinal = 0u64;
-    for_each_seg(n, &bounds, lim, job.light, &mut |cuts, empty_at| {
+    for_each_seg(n, &bounds, lim, job.mode, &mut |cuts, empty_at| {
         ordinal += 1;
         res.evals += 1;
+        // a message that ends exactly where a full-size (65535-byte) segment ends
+        {
+            let mut prev = 0u32;
+            for &c in cuts.iter().chain(std::iter::once(&(n as u32))) {
+                if (c - prev) as usize == MAXSEG && bounds.contains(&(c as usize)) {
+                    res.ends_on_full_segment += 1;
+                    break;
+                }
+                prev = c;
+            }
+        }
         let nontrivial = cuts.iter().any(|c| !bounds.contains(&(*c as usize)));
         if nontrivial && empty_at.is_none() {
             res.nontrivial += 1;
         }
         if res.sample.is_none() && nontrivial && cuts.len() >= 2 && ordinal >= 5 {
-            res.sample = Some(case_json(p, &job.msgs, n, cuts, empty_at, ordinal, job.light));
+            res.sample = Some(case_json(p, &job.msgs, n, cuts, empty_at, ordinal, job.mode));
         }
         let (class, at, site, what) = match run_one(p, &job.msgs, &stream, cuts, empty_at, flip) {
             Ok(None) => {
@@ -975,17 +1063,21 @@ fn run_job(protos: &[Proto], job: &Job, idx: usize, lim: &Limits) -> JobRes {
             if key < f.key {
                 f.key = key;
                 f.what = what;
-                f.case = case_json(p, &job.msgs, n, cuts, empty_at, ordinal, job.light);
+                f.case = case_json(p, &job.msgs, n, cuts, empty_at, ordinal, job.mode);
             }
         } else {
-            res.found.push(Found { class, at, panic_site: site, what, case: case_json(p, &job.msgs, n, cuts, empty_at, ordinal, job.light), key, count: 1 });
+            res.found.push(Found { class, at, panic_site: site, what, case: case_json(p, &job.msgs, n, cuts, empty_at, ordinal, job.mode), key, count: 1 });
         }
     });
     res
 }
 
-fn est_cost(n: usize, light: bool, lim: &Limits) -> u64 {
+fn est_cost(n: usize, mode: Mode, lim: &Limits) -> u64 {
     let n64 = n as u64;
+    if mode == Mode::Edge {
+        return 400 * (n64 / 64);
+    }
+    let light = mode == Mode::Light;
     if n <= lim.full_n {
         (1u64 << (n - 1)) * n64
     } else if n <= DENSE_N {
@@ -1000,31 +1092,34 @@ fn jobs(protos: &[Proto], lim: &Limits, thorough: bool) -> Vec<Job> {
     let mut v = vec![];
     for (pi, p) in protos.iter().enumerate() {
         let a = p.small.len();
-        let mut push = |msgs: Vec<Msg>, light: bool, kind: &'static str| {
+        let mut push = |msgs: Vec<Msg>, mode: Mode, kind: &'static str| {
             let n: usize = msgs.iter().map(|m| m.bytes.len()).sum();
-            v.push(Job { proto: pi, msgs, light, kind, cost: est_cost(n, light, lim) });
+            v.push(Job { proto: pi, msgs, mode, kind, cost: est_cost(n, mode, lim) });
         };
         for i in 0..a {
-            push(vec![p.small[i].clone()], false, "sequence");
+            push(vec![p.small[i].clone()], Mode::Full, "sequence");
             for j in 0..a {
-                push(vec![p.small[i].clone(), p.small[j].clone()], false, "sequence");
+                push(vec![p.small[i].clone(), p.small[j].clone()], Mode::Full, "sequence");
                 for k in 0..a {
-                    push(vec![p.small[i].clone(), p.small[j].clone(), p.small[k].clone()], false, "sequence");
+                    push(vec![p.small[i].clone(), p.small[j].clone(), p.small[k].clone()], Mode::Full, "sequence");
                 }
             }
         }
         if let Some(b) = &p.big {
             let (s1, s2) = (p.small[1 % a].clone(), p.small[2 % a].clone());
-            push(vec![b.clone()], false, "big");
-            push(vec![s1.clone(), b.clone(), s2.clone()], false, "big");
+            push(vec![b.clone()], Mode::Full, "big");
+            push(vec![s1.clone(), b.clone(), s2.clone()], Mode::Full, "big");
             if thorough {
-                push(vec![s1.clone(), b.clone()], false, "big");
-                push(vec![b.clone(), s2.clone()], false, "big");
-                push(vec![b.clone(), b.clone()], false, "big");
+                push(vec![s1.clone(), b.clone()], Mode::Full, "big");
+                push(vec![b.clone(), s2.clone()], Mode::Full, "big");
+                push(vec![b.clone(), b.clone()], Mode::Full, "big");
             }
         }
         for m in &p.extended {
-            push(vec![m.clone()], !thorough, "single-message");
+            push(vec![m.clone()], if thorough { Mode::Full } else { Mode::Light }, "single-message");
+        }
+        for e in &p.edges {
+            push(e.clone(), Mode::Edge, "segment-edge");
         }
     }
     v
@@ -1042,7 +1137,7 @@ fn replay(ctx: &Ctx, protos: &[Proto], lim: &Limits, path: &std::path::Path) -> 
     let mut msgs = vec![];
     for name in c["messages"].as_array().cloned().unwrap_or_default() {
         let name = name.as_str().unwrap_or("");
-        let m = p.small.iter().chain(p.big.iter()).chain(p.extended.iter()).find(|m| m.name == name);
+        let m = p.small.iter().chain(p.big.iter()).chain(p.extended.iter()).chain(p.edges.iter().flatten()).find(|m| m.name == name);
         match m {
             Some(m) => msgs.push(m.clone()),
             None => mc_core::report::machinery_failure(&format!("C21: replay message {name} not in the alphabet of this tier (try --tier thorough)")),
@@ -1054,7 +1149,7 @@ fn replay(ctx: &Ctx, protos: &[Proto], lim: &Limits, path: &std::path::Path) -> 
         _ => {
             // abbreviated: re-enumerate the stream's segmentations and take the recorded one
             let want = c["segmentation_ordinal"].as_u64().unwrap_or(0);
-            let light = c["single_message_sweep"].as_bool().unwrap_or(false);
+            let mode = Mode::parse(c["mode"].as_str().unwrap_or("full"));
             let mut bounds = vec![];
             let mut at = 0;
             for m in &msgs {
@@ -1063,7 +1158,7 @@ fn replay(ctx: &Ctx, protos: &[Proto], lim: &Limits, path: &std::path::Path) -> 
             }
             let mut found: Option<Vec<u32>> = None;
             let mut ordinal = 0u64;
-            for_each_seg(stream.len(), &bounds, lim, light, &mut |cuts, _| {
+            for_each_seg(stream.len(), &bounds, lim, mode, &mut |cuts, _| {
                 ordinal += 1;
                 if ordinal == want {
                     found = Some(cuts.to_vec());
@@ -1120,6 +1215,8 @@ pub fn run(ctx: Ctx) -> ! {
         msgs_ok: u64,
         full_enum_streams: u64,
         big_streams: u64,
+        edge_streams: u64,
+        ends_on_full_segment: u64,
     }
     let mut per: BTreeMap<String, PerProto> = BTreeMap::new();
     let (mut evals, mut distinct, mut msgs_ok) = (0u64, 0u64, 0u64);
@@ -1136,6 +1233,8 @@ pub fn run(ctx: Ctx) -> ! {
         e.msgs_ok += r.msgs_ok;
         e.full_enum_streams += r.full_enum as u64;
         e.big_streams += (j.kind == "big") as u64;
+        e.edge_streams += (j.kind == "segment-edge") as u64;
+        e.ends_on_full_segment += r.ends_on_full_segment;
         evals += r.evals;
         msgs_ok += r.msgs_ok;
         if p.counts_distinct {
@@ -1204,6 +1303,9 @@ pub fn run(ctx: Ctx) -> ! {
             if p.big.is_some() && e.big_streams == 0 {
                 mc_core::report::machinery_failure(&format!("C21: {key}: no stream with the 70 kB body"));
             }
+            if p.big.is_some() && (e.edge_streams < 6 || e.ends_on_full_segment < 6) {
+                mc_core::report::machinery_failure(&format!("C21: {key}: no segmentation in which a message ends exactly where a 65535-byte segment ends"));
+            }
         }
         if per.values().all(|e| e.full_enum_streams == 0) {
             mc_core::report::machinery_failure("C21: no stream short enough for the complete 2^(n-1) enumeration");
@@ -1216,7 +1318,8 @@ pub fn run(ctx: Ctx) -> ! {
             (
                 k.clone(),
                 json!({"streams": e.streams, "segmentations_executed": e.evals, "with_a_split_message": e.nontrivial, "messages_received_intact": e.msgs_ok,
-                       "streams_with_all_2^(n-1)_segmentations": e.full_enum_streams, "streams_with_70kB_body": e.big_streams}),
+                       "streams_with_all_2^(n-1)_segmentations": e.full_enum_streams, "streams_with_70kB_body": e.big_streams,
+                       "streams_ending_on_a_65535_multiple": e.edge_streams, "segmentations_with_a_message_ending_on_a_full_size_segment": e.ends_on_full_segment}),
             )
         })
         .collect();
@@ -1228,13 +1331,14 @@ pub fn run(ctx: Ctx) -> ! {
                 format!("{}/{}", p.stack, p.protocol),
                 json!({"sequence_alphabet": p.small.iter().map(|m| format!("{} [{} B]", m.name, m.bytes.len())).collect::<Vec<_>>(),
                        "big": p.big.as_ref().map(|m| format!("{} [{} B]", m.name, m.bytes.len())),
+                       "segment_edge_streams": p.edges.iter().map(|e| e.iter().map(|m| format!("{} [{} B]", m.name, m.bytes.len())).collect::<Vec<_>>()).collect::<Vec<_>>(),
                        "single_message_sweep": p.extended.len()}),
             )
         })
         .collect();
     let rule = format!(
         "evaluation = one (stream, segmentation) executed on one real receive path (pallas-network: enqueue_chunk -> Muxer -> pipe -> Demuxer -> ChannelBuffer::recv_full_msg::<protocol message type>, then a complete sentinel message; pallas-network2: write_segment -> pipe -> read_full_msgs::<AnyMessage> once per segment, partial_chunks empty at the end; and AnyMessage::from_payload fed the same segments directly). \
-         Streams per protocol: (a) every sequence of 1..3 messages over the protocol's reduced alphabet (first {QUICK_ALPHA} entries in quick, all 7 in thorough; listed under `alphabets`), (b) streams with one crafted message carrying a {BIG_BODY}-byte body where the protocol has a body field ([B], [s,B,s'] in quick; also [s,B], [B,s'], [B,B] in thorough), (c) every other mc-proto message of the protocol that passes C22 and is <= 4096 bytes, as a single-message stream. \
+         Streams per protocol: (a) every sequence of 1..3 messages over the protocol's reduced alphabet (first {QUICK_ALPHA} entries in quick, all 7 in thorough; listed under `alphabets`), (b) streams with one crafted message carrying a {BIG_BODY}-byte body where the protocol has a body field ([B], [s,B,s'] in quick; also [s,B], [B,s'], [B,B] in thorough), (b') where the protocol has a body field, six streams whose large message can end exactly where a full-size segment ends: [B] with |B| = 65535 and = 131070 bytes, [s,B] with |s|+|B| = 65535 and = 131070, and [s,B] with |B| = 65535 and = 131070 (body length chosen from the target), run with no cut (= the sender's 65535-byte chunking = uniform 65535) and every single cut within {SINGLE_WINDOW} bytes of a message start/end or 2 of a 65535 multiple; the receiver has to yield every stream message BEFORE the sentinel is enqueued (a receiver that waits for more data is reported as stalled), (c) every other mc-proto message of the protocol that passes C22 and is <= 4096 bytes, as a single-message stream. \
          Segmentations of a stream of n bytes: n <= {} : all 2^(n-1) cut sets; otherwise: no cut, every single cut (n <= {DENSE_N}: every position; longer: every position within {SINGLE_WINDOW} bytes of a message start/end, within 2 of a multiple of 65535, and every {STRIDE}th byte), every pair of cuts (n <= {}: all positions; longer streams: positions within {} bytes of a message boundary / 65535 multiple; not for (c) in quick), the all-1-byte segmentation, uniform k-byte segmentations k in {{2,3,7,255,65535}}, and segmentations with an EMPTY segment (one in the middle of the stream, and, for streams of >= 2 messages, one exactly between the first two messages). Segments longer than 65535 bytes are further cut at 65535-byte steps. Odd job indices run server->client / with the server bit set. \
          distinct_nontrivial = number of distinct (stack, protocol, stream, cut set) in which at least one cut lies strictly inside a message (counted once for the two pallas-network2 paths; the empty-segment case is not counted).",
         lim.full_n, lim.pair_n, lim.pair_window
